@@ -241,6 +241,9 @@ func (c *Conc) tagValue(name, val string) string {
 	}
 	switch name {
 	case "e", "E":
+		if strings.HasPrefix(val, "raw:") {
+			return strings.TrimPrefix(val, "raw:") // a value that is not an event id at all (bech32, free text)
+		}
 		return c.FakeID(val)
 	case "p", "P":
 		return c.Pubkey(val)
